@@ -41,7 +41,7 @@ impl OracleState {
         OracleState {
             prop: prop.to_string(),
             kills: 0,
-            max_kills: 2,
+            max_kills: cfg.max_kills,
             stop_issued: false,
             signal_raised: false,
             faults_injected: 0,
@@ -109,6 +109,7 @@ pub fn gen_config(prop: &str, tier: Tier, rng: &mut Rng) -> Config {
         w_settle: *rng.pick(&[1, 2, 5]),
         w_step: *rng.pick(&[2, 4, 8]),
         bitset_only: false,
+        max_kills: 2,
     };
     let lst = |rng: &mut Rng, uds_w: u64| -> Vec<Lst> {
         let n = if rng.chance(1, 3) { 2 } else { 1 };
@@ -245,7 +246,14 @@ pub fn gen_sweep_base(prop: &str, tier: Tier, rng: &mut Rng) -> Option<Config> {
             c.stop = false;
         }
         "C08" => {
-            c.kills = false;
+            // thorough: half of the base histories already contain one fault, so that the sweep
+            // enumerates every position of a second, overlapping fault
+            if tier == Tier::Thorough && rng.chance(1, 2) {
+                c.kills = true;
+                c.max_kills = 1;
+            } else {
+                c.kills = false;
+            }
         }
         _ => return None,
     }
@@ -293,7 +301,10 @@ pub fn widen_for_sweep(prop: &str, cfg: &mut Config) {
             cfg.pause = true;
         }
         "C06" => cfg.stop = true,
-        "C08" => cfg.kills = true,
+        "C08" => {
+            cfg.kills = true;
+            cfg.max_kills = 2;
+        }
         _ => {}
     }
 }
